@@ -12,11 +12,13 @@ use crate::world::*;
 
 pub type OracleFnPtr = fn(&EngModel, &mut World, &EngSt, &Act, &mut StepOut) -> Option<EngSt>;
 
+#[derive(Clone)]
 pub enum Alpha {
     Static(Vec<Act>),
     Dyn(fn(&mut World, &EngSt) -> Vec<Act>),
 }
 
+#[derive(Clone)]
 pub struct Exp {
     /// extra deployment step executed on each fresh world before the initial snapshot
     pub setup: Option<fn(&mut World)>,
@@ -27,6 +29,8 @@ pub struct Exp {
     pub alpha: Alpha,
     pub depth: usize,
     pub init_mon: Value,
+    /// alphabet and seeds are already in raw units of the world (not to be scaled by 10^(dec-6))
+    pub raw: bool,
 }
 
 impl Exp {
@@ -40,17 +44,46 @@ impl Exp {
             alpha: Alpha::Static(alpha),
             depth,
             init_mon: Value::Null,
+            raw: false,
         }
     }
 }
 
+/// 9-decimal copies of up to `max` of the cw20 experiments already in `exps` (static alphabets, or the state-dependent
+/// alphabets that compute in the world's own unit): the same notation-level alphabet and seeds, executed against a
+/// deployment whose token, engine and vAMMs carry 9 decimals.
+pub fn push_dec9(exps: &mut Vec<Exp>, max: usize, dyn_ok: bool) {
+    // the quick tier (max == 1) runs the copy one level shallower
+    let cut = if max == 1 { 1 } else { 0 };
+    let mut add = vec![];
+    for e in exps.iter() {
+        if add.len() >= max {
+            break;
+        }
+        if !e.cfg.cw20 || e.cfg.dec != 6 || e.name.contains("configuration sweep") {
+            continue;
+        }
+        if matches!(e.alpha, Alpha::Dyn(_)) && !dyn_ok {
+            continue;
+        }
+        let mut c = e.clone();
+        c.cfg.dec = 9;
+        c.depth = c.depth.saturating_sub(cut).max(2);
+        add.push(c);
+    }
+    exps.extend(add);
+}
+
 pub fn run_exps(run: &mut Run, oracle: OracleFnPtr, exps: Vec<Exp>, lim_tweak: impl Fn(&mut Limits)) {
     for e in exps {
+        // alphabets and seeds are written in 6-decimal notation; actions are executed in raw units
+        let k = if e.raw { 1 } else { e.cfg.k() };
+        let seeds: Vec<Vec<Act>> = e.seeds.iter().map(|s| s.iter().map(|a| a.scaled(k)).collect()).collect();
         let alpha_static;
         let alpha_dyn;
         let alphabet: &AlphaFn = match &e.alpha {
             Alpha::Static(v) => {
-                let v = v.clone();
+                let v: Vec<Act> = v.iter().map(|a| a.scaled(k)).collect();
                 alpha_static = move |_: &mut World, _: &EngSt| v.clone();
                 &alpha_static
             }
@@ -97,7 +130,7 @@ pub fn run_exps(run: &mut Run, oracle: OracleFnPtr, exps: Vec<Exp>, lim_tweak: i
             "alphabet_size": match &e.alpha { Alpha::Static(v) => json!(v.len()), Alpha::Dyn(_) => json!("state-dependent") },
         });
         let name = format!("{} [{}]", e.name, e.cfg.label());
-        run.explore(&name, params, &model, &e.seeds, &lim);
+        run.explore(&name, params, &model, &seeds, &lim);
     }
 }
 
@@ -215,12 +248,13 @@ fn cfg_liq(cw20: bool, fees: bool, plr: u128) -> Cfg {
 
 /// A pairwise covering array over the configuration dimensions {collateral, fees, partial ratio
 /// 0/25%/100%, margin band (10%/6.25% vs 5%/5%), liquidation fee zero/non-zero, fluctuation limit
-/// 0/5%, insurance fund rich/poor, vAMM naming the engine's insurance fund or another address}: every pair of values of two dimensions occurs in some row
-/// (greedy construction over the 192-row product, deterministic).
+/// 0/5%, insurance fund rich/poor, vAMM naming the engine's insurance fund or another address, 6 or 9 decimals
+/// (cw20 only: the engine accepts only 6-decimal native denominations)}: every pair of values of two dimensions occurs in some row
+/// (greedy construction over the 768-row product, deterministic).
 pub fn covering_configs() -> Vec<Cfg> {
-    let dims: [usize; 8] = [2, 2, 3, 2, 2, 2, 2, 2];
-    let mut all: Vec<[usize; 8]> = vec![];
-    let mut idx = [0usize; 8];
+    let dims: [usize; 9] = [2, 2, 3, 2, 2, 2, 2, 2, 2];
+    let mut all: Vec<[usize; 9]> = vec![];
+    let mut idx = [0usize; 9];
     loop {
         all.push(idx);
         let mut i = 0;
@@ -231,17 +265,17 @@ pub fn covering_configs() -> Vec<Cfg> {
             }
             idx[i] = 0;
             i += 1;
-            if i == 8 {
+            if i == 9 {
                 break;
             }
         }
-        if i == 8 {
+        if i == 9 {
             break;
         }
     }
     let mut uncovered: std::collections::BTreeSet<(usize, usize, usize, usize)> = Default::default();
-    for a in 0..8 {
-        for b in (a + 1)..8 {
+    for a in 0..9 {
+        for b in (a + 1)..9 {
             for x in 0..dims[a] {
                 for y in 0..dims[b] {
                     uncovered.insert((a, x, b, y));
@@ -255,8 +289,8 @@ pub fn covering_configs() -> Vec<Cfg> {
             .iter()
             .max_by_key(|r| {
                 let mut n = 0;
-                for a in 0..8 {
-                    for b in (a + 1)..8 {
+                for a in 0..9 {
+                    for b in (a + 1)..9 {
                         if uncovered.contains(&(a, r[a], b, r[b])) {
                             n += 1;
                         }
@@ -266,8 +300,8 @@ pub fn covering_configs() -> Vec<Cfg> {
             })
             .unwrap()
             .clone();
-        for a in 0..8 {
-            for b in (a + 1)..8 {
+        for a in 0..9 {
+            for b in (a + 1)..9 {
                 uncovered.remove(&(a, best[a], b, best[b]));
             }
         }
@@ -291,9 +325,36 @@ pub fn covering_configs() -> Vec<Cfg> {
                 c.if_funds = 50_000;
             }
             c.vamm_if_other = r[7] == 1;
+            // the engine only knows 6-decimal native denominations; 9 decimals needs a cw20 token
+            c.dec = if r[8] == 1 && c.cw20 { 9 } else { 6 };
             c
         })
         .collect()
+}
+
+/// Dust positions in a pool priced below 1 (0.1 quote per base): positions of a few raw base units whose value
+/// rounds to zero quote units, next to one ordinary size that moves the price. Amounts are raw units.
+pub fn push_dust(exps: &mut Vec<Exp>, cw20: bool, depth: usize) {
+    let mut c = cfg_with(cw20, false, 0);
+    c.quote_reserve = 100 * D;
+    c.base_reserve = 1000 * D;
+    let mut acts = vec![];
+    for t in T2 {
+        for buy in [true, false] {
+            for (m, l) in [(1u128, D), (3, D), (12, D), (25, 2 * D), (5 * D, 2 * D)] {
+                acts.push(Act::Open { t: t.into(), v: 0, buy, margin: m, lev: l, limit: 0 });
+            }
+        }
+        acts.push(Act::close(t));
+        acts.push(Act::Liq { by: "liq".into(), t: t.into(), v: 0, limit: 0 });
+    }
+    acts.push(Act::blk(15));
+    acts.push(Act::blk(1200));
+    acts.push(px_at_spot());
+    let mut e = Exp::new("dust positions, price 0.1", c, acts, vec![vec![]], depth);
+    e.traders = T2.to_vec();
+    e.raw = true;
+    exps.push(e);
 }
 
 /// shallow explorations over the covering array (breadth over configurations)
@@ -403,6 +464,11 @@ pub fn run_c02(tier: Tier) -> i32 {
         }
     }
     push_sweep(&mut exps, tier.pick(2, 3));
+    push_dust(&mut exps, true, tier.pick(3, 4));
+    if tier == Tier::Thorough {
+        push_dust(&mut exps, false, 4);
+    }
+    push_dec9(&mut exps, tier.pick(1, 3), false);
     run_exps(&mut run, step_c02, exps, |_| {});
     run.finish()
 }
@@ -446,6 +512,11 @@ pub fn run_c03(tier: Tier) -> i32 {
         }
     }
     push_sweep(&mut exps, tier.pick(2, 3));
+    push_dust(&mut exps, true, tier.pick(3, 4));
+    if tier == Tier::Thorough {
+        push_dust(&mut exps, false, 4);
+    }
+    push_dec9(&mut exps, tier.pick(1, 3), false);
     run_exps(&mut run, step_c03, exps, |_| {});
     run.finish()
 }
@@ -461,16 +532,17 @@ fn step_c10(m: &EngModel, w: &mut World, s: &EngSt, a: &Act, out: &mut StepOut) 
 /// an account whose name is a suffix of a trader's ("al"+"ice"): with free-form address strings a
 /// crafted vAMM string can make (vamm', sender) hash to another trader's position slot
 fn setup_c10(w: &mut World) {
+    let d = w.d;
     if let Some(t) = w.token.clone() {
         let eng = w.engine.to_string();
-        assert!(w.exec("alice", &t, &cw20::Cw20ExecuteMsg::Transfer { recipient: "ice".into(), amount: cosmwasm_std::Uint128::new(100 * D) }, 0).ok);
+        assert!(w.exec("alice", &t, &cw20::Cw20ExecuteMsg::Transfer { recipient: "ice".into(), amount: cosmwasm_std::Uint128::new(100 * d) }, 0).ok);
         assert!(w.exec("ice", &t, &cw20::Cw20ExecuteMsg::IncreaseAllowance { spender: eng.clone(), amount: cosmwasm_std::Uint128::new(u128::MAX / 4), expires: None }, 0).ok);
         // an account whose name differs from a trader's only by a trailing zero
-        assert!(w.exec("alice", &t, &cw20::Cw20ExecuteMsg::Transfer { recipient: "bob0".into(), amount: cosmwasm_std::Uint128::new(500 * D) }, 0).ok);
+        assert!(w.exec("alice", &t, &cw20::Cw20ExecuteMsg::Transfer { recipient: "bob0".into(), amount: cosmwasm_std::Uint128::new(500 * d) }, 0).ok);
         assert!(w.exec("bob0", &t, &cw20::Cw20ExecuteMsg::IncreaseAllowance { spender: eng, amount: cosmwasm_std::Uint128::new(u128::MAX / 4), expires: None }, 0).ok);
     } else {
-        w.app.send_tokens(cosmwasm_std::Addr::unchecked("alice"), cosmwasm_std::Addr::unchecked("ice"), &[cosmwasm_std::Coin::new(100 * D, DENOM)]).unwrap();
-        w.app.send_tokens(cosmwasm_std::Addr::unchecked("alice"), cosmwasm_std::Addr::unchecked("bob0"), &[cosmwasm_std::Coin::new(500 * D, DENOM)]).unwrap();
+        w.app.send_tokens(cosmwasm_std::Addr::unchecked("alice"), cosmwasm_std::Addr::unchecked("ice"), &[cosmwasm_std::Coin::new(100 * d, w.denom)]).unwrap();
+        w.app.send_tokens(cosmwasm_std::Addr::unchecked("alice"), cosmwasm_std::Addr::unchecked("bob0"), &[cosmwasm_std::Coin::new(500 * d, w.denom)]).unwrap();
     }
 }
 
@@ -494,7 +566,8 @@ fn alpha_c10(w: &mut World, _s: &EngSt) -> Vec<Act> {
     for v in 0..w.vamms.len() {
         acts.push(Act::DepRaw { by: "ice".into(), vamm: format!("{}al", w.vamms[v]), amt: 7 * D });
     }
-    acts
+    let k = w.cfg.k();
+    acts.iter().map(|a| a.scaled(k)).collect()
 }
 
 pub fn run_c10(tier: Tier) -> i32 {
@@ -521,7 +594,7 @@ pub fn run_c10(tier: Tier) -> i32 {
     // partial ratio 10%: a position of fewer than 10 base micro-units cannot be split (dust)
     let mut c = cfg_liq(true, true, 100_000);
     c.n_vamms = 2;
-    let mk = |c: Cfg, d: usize| Exp { setup: Some(setup_c10), name: "3 traders 2 vamms".into(), cfg: c, traders: T3.to_vec(), seeds: vec![vec![], seed3.clone(), seed4.clone()], alpha: Alpha::Dyn(alpha_c10), depth: d, init_mon: Value::Null };
+    let mk = |c: Cfg, d: usize| Exp { setup: Some(setup_c10), name: "3 traders 2 vamms".into(), cfg: c, traders: T3.to_vec(), seeds: vec![vec![], seed3.clone(), seed4.clone()], alpha: Alpha::Dyn(alpha_c10), depth: d, init_mon: Value::Null, raw: false };
     let seed5 = vec![
         Act::open("alice", false, 20 * D, 10 * D),
         Act::open("carol", true, SIZE_S.0, SIZE_S.1),
@@ -530,7 +603,7 @@ pub fn run_c10(tier: Tier) -> i32 {
         Act::blk(1200),
         px_at_spot(),
     ];
-    let mk_full = |c: Cfg, d: usize| Exp { setup: Some(setup_c10), name: "3 traders 2 vamms, partial ratio 100%".into(), cfg: c, traders: T3.to_vec(), seeds: vec![seed5.clone(), seed4.clone()], alpha: Alpha::Dyn(alpha_c10), depth: d, init_mon: Value::Null };
+    let mk_full = |c: Cfg, d: usize| Exp { setup: Some(setup_c10), name: "3 traders 2 vamms, partial ratio 100%".into(), cfg: c, traders: T3.to_vec(), seeds: vec![seed5.clone(), seed4.clone()], alpha: Alpha::Dyn(alpha_c10), depth: d, init_mon: Value::Null, raw: false };
     let mut cfull = c.clone();
     cfull.plr = D;
     let mut exps = vec![];
@@ -551,6 +624,11 @@ pub fn run_c10(tier: Tier) -> i32 {
         }
     }
     push_sweep(&mut exps, tier.pick(2, 2));
+    push_dust(&mut exps, true, tier.pick(3, 4));
+    if tier == Tier::Thorough {
+        push_dust(&mut exps, false, 4);
+    }
+    push_dec9(&mut exps, tier.pick(1, 3), true);
     run_exps(&mut run, step_c10, exps, |_| {});
     run.finish()
 }
@@ -592,7 +670,7 @@ pub fn run_c04(tier: Tier) -> i32 {
             let mut c = cfg_with(true, true, 250_000);
             c.fluct = 50_000;
             c.imr = 100_000;
-            exps.push(Exp { setup: None, name: "partial-close".into(), cfg: c, traders: T2.to_vec(), seeds: vec![vec![]], alpha: Alpha::Dyn(alpha_c15), depth: 5, init_mon: Value::Null });
+            exps.push(Exp { setup: None, name: "partial-close".into(), cfg: c, traders: T2.to_vec(), seeds: vec![vec![]], alpha: Alpha::Dyn(alpha_c15), depth: 5, init_mon: Value::Null, raw: false });
         }
         Tier::Thorough => {
             for cw20 in [true, false] {
@@ -605,11 +683,16 @@ pub fn run_c04(tier: Tier) -> i32 {
                 let mut c = cfg_with(cw20, true, 250_000);
                 c.fluct = 50_000;
                 c.imr = 100_000;
-                exps.push(Exp { setup: None, name: "partial-close".into(), cfg: c, traders: T2.to_vec(), seeds: vec![vec![]], alpha: Alpha::Dyn(alpha_c15), depth: 6, init_mon: Value::Null });
+                exps.push(Exp { setup: None, name: "partial-close".into(), cfg: c, traders: T2.to_vec(), seeds: vec![vec![]], alpha: Alpha::Dyn(alpha_c15), depth: 6, init_mon: Value::Null, raw: false });
             }
         }
     }
     push_sweep(&mut exps, tier.pick(2, 3));
+    push_dust(&mut exps, true, tier.pick(3, 4));
+    if tier == Tier::Thorough {
+        push_dust(&mut exps, false, 4);
+    }
+    push_dec9(&mut exps, tier.pick(1, 3), false);
     run_exps(&mut run, step_c04, exps, |_| {});
     run.finish()
 }
@@ -626,22 +709,23 @@ fn step_c05(m: &EngModel, w: &mut World, s: &EngSt, a: &Act, out: &mut StepOut) 
 fn alpha_c05(w: &mut World, s: &EngSt) -> Vec<Act> {
     w.restore(&s.snap);
     let imr = w.cfg.imr;
-    let max_lev = D * D / imr; // 1/initial ratio
+    let (d, k) = (w.d, w.cfg.k());
+    let max_lev = d * d / imr; // 1/initial ratio
     let mut acts = vec![];
     for t in T2 {
         for buy in [true, false] {
             for (m, l) in [
-                (60 * D, max_lev),
-                (7_000_003, 2_500_000),
-                (20 * D, max_lev + 1),
-                (20 * D, D - 1),
-                (1, D),
+                (60 * d, max_lev),
+                (7_000_003 * k, 2_500_000 * k),
+                (20 * d, max_lev + 1),
+                (20 * d, d - 1),
+                (1, d),
             ] {
                 acts.push(Act::Open { t: t.into(), v: 0, buy, margin: m, lev: l, limit: 0 });
             }
         }
         acts.push(Act::close(t));
-        acts.push(Act::Dep { t: t.into(), v: 0, amt: 5 * D + 1 });
+        acts.push(Act::Dep { t: t.into(), v: 0, amt: 5 * d + 1 });
         let to = observe_trader(w, 0, t);
         if let Some(p) = &to.pos {
             let vo = observe(w, &[]).vamms.remove(0);
@@ -667,14 +751,14 @@ fn alpha_c05(w: &mut World, s: &EngSt) -> Vec<Act> {
                 }
             }
         } else {
-            acts.push(Act::Wd { t: t.into(), v: 0, amt: 3 * D });
+            acts.push(Act::Wd { t: t.into(), v: 0, amt: 3 * d });
         }
     }
     acts.push(Act::fund());
     for b in [15, 1200, 3900] {
         acts.push(Act::blk(b));
     }
-    acts.push(Act::Px { price: 8 * D });
+    acts.push(Act::Px { price: 8 * d });
     acts
 }
 
@@ -691,7 +775,7 @@ pub fn run_c05(tier: Tier) -> i32 {
     let seeds = vec![vec![], seed_funded(), seed_liquidatable()];
     let mut exps = vec![];
     let mut push = |c: Cfg, d: usize| {
-        exps.push(Exp { setup: None, name: "leverage/withdraw boundaries".into(), cfg: c, traders: T2.to_vec(), seeds: seeds.clone(), alpha: Alpha::Dyn(alpha_c05), depth: d, init_mon: Value::Null });
+        exps.push(Exp { setup: None, name: "leverage/withdraw boundaries".into(), cfg: c, traders: T2.to_vec(), seeds: seeds.clone(), alpha: Alpha::Dyn(alpha_c05), depth: d, init_mon: Value::Null, raw: false });
     };
     match tier {
         Tier::Quick => {
@@ -707,6 +791,7 @@ pub fn run_c05(tier: Tier) -> i32 {
         }
     }
     push_sweep(&mut exps, tier.pick(2, 3));
+    push_dec9(&mut exps, tier.pick(1, 3), true);
     run_exps(&mut run, step_c05, exps, |_| {});
     run.finish()
 }
@@ -733,6 +818,8 @@ fn liq_alpha(rel: bool) -> Vec<Act> {
     al.funding = false;
     al.deposit = None;
     al.withdraw = Some(3 * D);
+    // a quote limit the liquidation satisfies: 1 when the closing trade receives quote (long), huge when it pays (short)
+    al.liq_limits = vec![0, 1, 1_000_000 * D];
     if rel {
         // oracle on either side of the 10% spread limit
         al.rel_prices = vec![(1, 1), (10, 11), (1000, 1101), (10, 9), (1000, 899)];
@@ -785,6 +872,10 @@ fn alpha_c06(w: &mut World, s: &EngSt) -> Vec<Act> {
     let mut acts = liq_alpha(true);
     acts.push(Act::EngConfig { by: "owner".into(), imr: None, mmr: None, plr: Some(D + 50_000), lf: None });
     acts.push(Act::EngConfig { by: "owner".into(), imr: None, mmr: None, plr: None, lf: Some(D + 50_000) });
+    let k = w.cfg.k();
+    let mut acts: Vec<Act> = acts.iter().map(|a| a.scaled(k)).collect();
+    #[allow(non_snake_case)]
+    let DI = di();
     let mmr = w.cfg.mmr as i128;
     let vo = observe(w, &[]).vamms.remove(0);
     for t in T2 {
@@ -796,7 +887,7 @@ fn alpha_c06(w: &mut World, s: &EngSt) -> Vec<Act> {
             let (m, n, sz) = (p.margin.u128() as i128, p.notional.u128() as i128, p.size.value.u128() as i128);
             let owed = owed_of(p, vo.cum);
             for dr in [-2000i128, -300, 300, 2000] {
-                let r = mmr + dr;
+                let r = mmr + dr * k as i128;
                 // position value N at which the oracle ratio equals r
                 let nn = if size_of(p) > 0 {
                     let num = (n + owed - m) * DI;
@@ -850,7 +941,7 @@ pub fn run_c06(tier: Tier) -> i32 {
         Act::blk(1200),
     ]);
     let mut push = |c: Cfg, d: usize| {
-        exps.push(Exp { setup: None, name: "liq".into(), cfg: c, traders: T3.to_vec(), seeds: seeds.clone(), alpha: Alpha::Dyn(alpha_c06), depth: d, init_mon: Value::Null });
+        exps.push(Exp { setup: None, name: "liq".into(), cfg: c, traders: T3.to_vec(), seeds: seeds.clone(), alpha: Alpha::Dyn(alpha_c06), depth: d, init_mon: Value::Null, raw: false });
     };
     match tier {
         Tier::Quick => {
@@ -870,6 +961,7 @@ pub fn run_c06(tier: Tier) -> i32 {
         }
     }
     push_sweep(&mut exps, tier.pick(2, 3));
+    push_dec9(&mut exps, tier.pick(1, 3), true);
     run_exps(&mut run, step_c06, exps, |_| {});
     run.finish()
 }
@@ -935,6 +1027,7 @@ pub fn run_c07(tier: Tier) -> i32 {
         }
     }
     push_sweep(&mut exps, tier.pick(2, 3));
+    push_dec9(&mut exps, tier.pick(1, 3), false);
     run_exps(&mut run, step_c07, exps, |_| {});
     run.finish()
 }
@@ -993,7 +1086,7 @@ fn step_c08(m: &EngModel, w: &mut World, s: &EngSt, a: &Act, out: &mut StepOut) 
         // operation needs from the fund is read off the rich-fund twin of the same pre-state (the fund topped up
         // from a wallet that never trades); if that exceeds what the fund really holds, the real run must fail.
         let if_bal = so.pre.balances.get(w.ifund.as_str()).copied().unwrap_or(0);
-        if if_bal < 100 * D && !m.traders.iter().any(|t| *t == "stranger") {
+        if if_bal < 100 * w.d && !m.traders.iter().any(|t| *t == "stranger") {
             w.restore(&s.snap);
             let moved = w.top_up_ifund();
             if moved > 0 {
@@ -1058,7 +1151,7 @@ pub fn run_c08(tier: Tier) -> i32 {
         let mut c = cfg_with(true, true, 250_000);
         c.fluct = 50_000;
         c.imr = 100_000;
-        exps.push(Exp { setup: None, name: "fault sweep partial close".into(), cfg: c, traders: T2.to_vec(), seeds: vec![vec![]], alpha: Alpha::Dyn(alpha_c15), depth: tier.pick(3, 4), init_mon: Value::Null });
+        exps.push(Exp { setup: None, name: "fault sweep partial close".into(), cfg: c, traders: T2.to_vec(), seeds: vec![vec![]], alpha: Alpha::Dyn(alpha_c15), depth: tier.pick(3, 4), init_mon: Value::Null, raw: false });
     }
     // poor / empty insurance fund: withdrawals the fund cannot cover must fail the whole transaction
     for (cw20, iff) in [(true, 0u128), (false, 50_000)] {
@@ -1067,6 +1160,7 @@ pub fn run_c08(tier: Tier) -> i32 {
         exps.push(Exp::new("fault sweep poor fund", c, alpha.clone(), vec![seed_funded(), seed_funding_exceeds_margin(), seed_liquidatable()], tier.pick(2, 3)));
     }
     push_sweep(&mut exps, tier.pick(1, 2));
+    push_dec9(&mut exps, tier.pick(1, 3), false);
     run_exps(&mut run, step_c08, exps, |_| {});
     run.finish()
 }
@@ -1105,6 +1199,7 @@ pub fn run_c11(tier: Tier) -> i32 {
         }
     }
     push_sweep(&mut exps, tier.pick(2, 3));
+    push_dec9(&mut exps, tier.pick(1, 3), false);
     run_exps(&mut run, step_c11, exps, |_| {});
     run.finish()
 }
@@ -1147,6 +1242,11 @@ pub fn run_c12(tier: Tier) -> i32 {
         }
     }
     push_sweep(&mut exps, tier.pick(2, 3));
+    push_dust(&mut exps, true, tier.pick(3, 4));
+    if tier == Tier::Thorough {
+        push_dust(&mut exps, false, 4);
+    }
+    push_dec9(&mut exps, tier.pick(1, 3), false);
     run_exps(&mut run, step_c12, exps, |_| {});
     run.finish()
 }
@@ -1294,7 +1394,17 @@ pub fn run_c16(tier: Tier) -> i32 {
         e.init_mon = init.clone();
         exps.push(e);
     }
-    push_sweep(&mut exps, tier.pick(2, 3));
+    // breadth over configurations with the restriction alphabet itself (a trade, a liquidation and a second action in
+    // one block need three steps): zero liquidation fee, partial ratio 100%, poor fund, fees, price band, 9 decimals
+    for c in covering_configs() {
+        let mut e = Exp::new("restriction mode, configuration sweep", c, alpha.clone(), vec![with_funding_due(seed_liquidatable()), seed_band_liquidatable(), seed_slightly_under()], tier.pick(3, 4));
+        e.init_mon = init.clone();
+        exps.push(e);
+    }
+    if tier == Tier::Thorough {
+        push_sweep(&mut exps, 3);
+    }
+    push_dec9(&mut exps, tier.pick(1, 3), false);
     run_exps(&mut run, step_c16, exps, |_| {});
     run.finish()
 }
@@ -1328,7 +1438,9 @@ fn notional_for_move(q: u128, f: u128) -> u128 {
 fn alpha_c15(w: &mut World, s: &EngSt) -> Vec<Act> {
     w.restore(&s.snap);
     let q = w.vstate(0).quote_asset_reserve.u128();
-    let l = w.cfg.fluct;
+    // the move factors are computed in parts per million whatever the decimals
+    let l = w.cfg.fluct / w.cfg.k();
+    let d = w.d;
     let mut acts = vec![];
     // trade sizes on either side of the band edge, plus a small one for drift
     let moves_up = [1_000_000 + l - l / 50, 1_000_000 + l + l / 50, 1_000_000 + l / 2];
@@ -1336,13 +1448,17 @@ fn alpha_c15(w: &mut World, s: &EngSt) -> Vec<Act> {
     for t in T2 {
         for f in moves_up {
             let n = notional_for_move(q, f);
-            acts.push(Act::Open { t: t.into(), v: 0, buy: true, margin: n / 2 + 1, lev: 2 * D, limit: 0 });
+            acts.push(Act::Open { t: t.into(), v: 0, buy: true, margin: n / 2 + 1, lev: 2 * d, limit: 0 });
         }
         for f in moves_dn {
             let n = notional_for_move(q, f);
-            acts.push(Act::Open { t: t.into(), v: 0, buy: false, margin: n / 2 + 1, lev: 2 * D, limit: 0 });
+            acts.push(Act::Open { t: t.into(), v: 0, buy: false, margin: n / 2 + 1, lev: 2 * d, limit: 0 });
         }
         acts.push(Act::close(t));
+        // the same close carrying a quote limit that the whole close satisfies (a long receives at least 1; a short
+        // pays at most a huge amount): the whole-or-fraction decision must not depend on the limit being there
+        acts.push(Act::Close { t: t.into(), v: 0, limit: 1 });
+        acts.push(Act::Close { t: t.into(), v: 0, limit: 1_000_000 * d });
     }
     acts.push(Act::blk(15));
     acts
@@ -1350,6 +1466,7 @@ fn alpha_c15(w: &mut World, s: &EngSt) -> Vec<Act> {
 
 /// monitor: {h, p: spot price at the end of the previous block}
 fn step_c15(m: &EngModel, w: &mut World, s: &EngSt, a: &Act, out: &mut StepOut) -> Option<EngSt> {
+    let d1 = du();
     let so = m.observe_step(w, s, a, out);
     let cfg = &w.cfg;
     let mut mon = s.mon.clone();
@@ -1358,8 +1475,8 @@ fn step_c15(m: &EngModel, w: &mut World, s: &EngSt, a: &Act, out: &mut StepOut) 
     }
     let p = mon["p"].as_u64().unwrap() as u128;
     let l = cfg.fluct;
-    let upper = p * (D + l) / D;
-    let lower = p * (D - l) / D;
+    let upper = p * (d1 + l) / d1;
+    let lower = p * (d1 - l) / d1;
     let inside = |x: u128| x >= lower && x <= upper;
     let spot0 = so.pre.vamms[0].spot;
     let spot1 = so.post.vamms[0].spot;
@@ -1386,7 +1503,7 @@ fn step_c15(m: &EngModel, w: &mut World, s: &EngSt, a: &Act, out: &mut StepOut) 
                 out.tag("c15:open-refused-by-vamm");
             }
         }
-        Act::Close { t, v, .. } if l > 0 && cfg.plr < D => {
+        Act::Close { t, v, .. } if l > 0 && cfg.plr < d1 => {
             if so.outcome.ok {
                 let p0 = so.pre_t(*v, t).pos.clone().unwrap();
                 match &so.post_t(*v, t).pos {
@@ -1402,7 +1519,7 @@ fn step_c15(m: &EngModel, w: &mut World, s: &EngSt, a: &Act, out: &mut StepOut) 
                     }
                     Some(p1) => {
                         out.tag("c15:partial-close");
-                        let exp = p0.size.value.u128() * cfg.plr / D;
+                        let exp = p0.size.value.u128() * cfg.plr / d1;
                         let dec = p0.size.value.u128() as i128 - p1.size.value.u128() as i128;
                         let vs = &so.pre.vamms[0].state;
                         let tol = 2 + (vs.base_asset_reserve.u128() / vs.quote_asset_reserve.u128().max(1)) as i128;
@@ -1421,7 +1538,7 @@ fn step_c15(m: &EngModel, w: &mut World, s: &EngSt, a: &Act, out: &mut StepOut) 
                         if let Ok(qa) = qa {
                             let (q0, b0) = (vs.quote_asset_reserve.u128(), vs.base_asset_reserve.u128());
                             let (q1, b1) = if size_of(&p0) > 0 { (q0 - qa, b0 + p0.size.value.u128()) } else { (q0 + qa, b0 - p0.size.value.u128()) };
-                            let price_after = q1 * D / b1;
+                            let price_after = q1 * d1 / b1;
                             if inside(price_after) && inside(spot0) {
                                 out.viol(
                                     "C15:partial-close-though-whole-close-stays-inside",
@@ -1454,7 +1571,7 @@ pub fn run_c15(tier: Tier) -> i32 {
     };
     let mut exps = vec![];
     let mut push = |c: Cfg, d: usize| {
-        exps.push(Exp { setup: None, name: "price band".into(), cfg: c, traders: T2.to_vec(), seeds: vec![vec![]], alpha: Alpha::Dyn(alpha_c15), depth: d, init_mon: Value::Null });
+        exps.push(Exp { setup: None, name: "price band".into(), cfg: c, traders: T2.to_vec(), seeds: vec![vec![]], alpha: Alpha::Dyn(alpha_c15), depth: d, init_mon: Value::Null, raw: false });
     };
     match tier {
         Tier::Quick => {
@@ -1467,6 +1584,7 @@ pub fn run_c15(tier: Tier) -> i32 {
             push(mk(50_000, D), 5);
         }
     }
+    push_dec9(&mut exps, tier.pick(1, 2), true);
     run_exps(&mut run, step_c15, exps, |_| {});
     run.finish()
 }
@@ -1612,8 +1730,9 @@ pub fn run_c17(tier: Tier) -> i32 {
         let mut c = cfg_with(true, false, D);
         c.fluct = 50_000;
         c.imr = 100_000;
-        exps.push(Exp { setup: None, name: "engine limits over the band".into(), cfg: c, traders: T2.to_vec(), seeds: vec![vec![]], alpha: Alpha::Dyn(alpha_c15), depth: tier.pick(3, 5), init_mon: Value::Null });
+        exps.push(Exp { setup: None, name: "engine limits over the band".into(), cfg: c, traders: T2.to_vec(), seeds: vec![vec![]], alpha: Alpha::Dyn(alpha_c15), depth: tier.pick(3, 5), init_mon: Value::Null, raw: false });
     }
+    push_dec9(&mut exps, tier.pick(1, 3), false);
     run_exps(&mut run, step_c17_eng, exps, |_| {});
     run.finish()
 }
